@@ -8,6 +8,7 @@ import (
 	"strings"
 	"sync"
 	"sync/atomic"
+	"time"
 
 	"github.com/boz/kcache"
 	"kverif/kv"
@@ -65,12 +66,26 @@ func lindiff(w *bufio.Writer, seed uint64, tier string, stats map[string]int) {
 			writes, readers = 24, 5
 		}
 		// the last long round is a big one (fewer writes: its lists are long)
-		big := round == rounds-1
+		big := round == rounds-1 || round == rounds-2
+		slowBig := round == rounds-1 // (the other big round runs at full speed, with the small keys for Get)
 		if big {
 			writes, readers = 60, 4
 		}
 		ctx, cancel := context.WithCancel(context.Background())
-		c := kcache.VerifNewCache(ctx, &kv.Log{}, nil, kv.Term{Op: "null"}.Build())
+		// the big round runs under a filter that takes its time now and then (constant true): a relist lasts long
+		// enough for readers to come and go several times while it is being applied
+		fterm := kv.Term{Op: "null"}
+		var fcalls atomic.Int64
+		var curK atomic.Int64
+		if slowBig {
+			fterm = kv.Term{Op: "fn", N: 2}
+			kv.FNHook = func() {
+				if fcalls.Add(1)%48 == 0 {
+					time.Sleep(50 * time.Microsecond)
+				}
+			}
+		}
+		c := kcache.VerifNewCache(ctx, &kv.Log{}, nil, fterm.Build())
 		var clock atomic.Int64
 		var mu sync.Mutex
 		var lines []string
@@ -93,6 +108,10 @@ func lindiff(w *bufio.Writer, seed uint64, tier string, stats map[string]int) {
 					t0 := clock.Add(1)
 					if useGet {
 						key := linKeys[int(t0)%len(linKeys)]
+						if slowBig {
+							// a key of the state being written (or of its neighbours)
+							key = [2]string{"n", strconv.Itoa(int((curK.Load()+1)/2+t0*7919) % 400)}
+						}
 						o, err := c.Get(key[0], key[1])
 						t1 := clock.Add(1)
 						res := "nil"
@@ -137,6 +156,7 @@ func lindiff(w *bufio.Writer, seed uint64, tier string, stats map[string]int) {
 		done := writes
 		for k := 1; k <= writes; k++ {
 			st := linState(k, big)
+			curK.Store(int64(k))
 			if k == cancelAt {
 				go cancel()
 			}
@@ -145,7 +165,7 @@ func lindiff(w *bufio.Writer, seed uint64, tier string, stats map[string]int) {
 			var err error
 			switch mode {
 			case 1:
-				_, err = c.Refilter(kv.BuildAll(st), kv.Term{Op: "null"}.Build())
+				_, err = c.Refilter(kv.BuildAll(st), fterm.Build())
 			default:
 				_, err = c.Sync(kv.BuildAll(st))
 			}
@@ -160,6 +180,7 @@ func lindiff(w *bufio.Writer, seed uint64, tier string, stats map[string]int) {
 		wg.Wait()
 		cancel()
 		<-c.Done()
+		kv.FNHook = nil
 		for _, l := range lines {
 			fmt.Fprintln(w, l)
 		}
@@ -167,6 +188,70 @@ func lindiff(w *bufio.Writer, seed uint64, tier string, stats map[string]int) {
 		stats["rounds"]++
 		stats["ops"] += len(lines)
 	}
+	slows := 2
+	if tier == "thorough" {
+		slows = 8
+	}
+	for i := 0; i < slows; i++ {
+		linSlow(w, rounds+minis+i, stats)
+	}
+}
+
+// linSlow: a reader that comes back rarely. Write 1, List(), write 2, then write 3 under a filter that blocks for
+// 900 ms in the middle of the relist; 50 ms into it the reader calls List() again: whatever it is given must not
+// be older than write 2, which had returned before the call.
+func linSlow(w *bufio.Writer, round int, stats map[string]int) {
+	ctx, cancel := context.WithCancel(context.Background())
+	defer cancel()
+	var slow atomic.Bool
+	var fcalls atomic.Int64
+	kv.FNHook = func() {
+		if slow.Load() && fcalls.Add(1) == 2 {
+			time.Sleep(900 * time.Millisecond)
+		}
+	}
+	defer func() { kv.FNHook = nil }()
+	c := kcache.VerifNewCache(ctx, &kv.Log{}, nil, kv.Term{Op: "fn", N: 2}.Build())
+	var clock atomic.Int64
+	var omu sync.Mutex
+	out := func(l string) { omu.Lock(); fmt.Fprintln(w, l); omu.Unlock() }
+	out(kv.L("scenario", fmt.Sprint(round), "lin"))
+	write := func(k int) {
+		t0 := clock.Add(1)
+		if _, err := c.Sync(kv.BuildAll(linState(k, false))); err != nil {
+			return
+		}
+		out(kv.L("w", fmt.Sprint(k), fmt.Sprint(t0), fmt.Sprint(clock.Add(1))))
+	}
+	read := func(id int) {
+		t0 := clock.Add(1)
+		l, err := c.List()
+		t1 := clock.Add(1)
+		if err != nil {
+			out(kv.L("r", fmt.Sprint(id), fmt.Sprint(t0), fmt.Sprint(t1), "err"))
+			return
+		}
+		parts := make([]string, 0, len(l))
+		for _, o := range l {
+			parts = append(parts, o.GetNamespace()+"/"+o.GetName()+"@"+o.GetResourceVersion())
+		}
+		out(kv.L("r", fmt.Sprint(id), fmt.Sprint(t0), fmt.Sprint(t1), kv.L(sortedAtoms(parts)...)))
+	}
+	write(1)
+	read(0)
+	write(2)
+	slow.Store(true)
+	var wg sync.WaitGroup
+	wg.Add(1)
+	go func() { defer wg.Done(); write(3) }()
+	time.Sleep(50 * time.Millisecond)
+	read(0)
+	wg.Wait()
+	read(0)
+	out(kv.L("lin-end", "3"))
+	cancel()
+	<-c.Done()
+	stats["rounds"]++
 }
 
 func sortedAtoms(parts []string) []string {
